@@ -1,5 +1,5 @@
 """Property -> rules (DESIGN.md section 4)."""
-from .rules import live, walk, exc, graph, graph2, repair, purity
+from .rules import live, walk, exc, graph, graph2, repair, purity, misc, misc2
 
 SW, GR, OP, BF = 'dsw.spiderweb.', 'dsw.graphized.', 'dsw.operation.', 'dsw.biofilter.'
 
@@ -50,6 +50,8 @@ def c02(ctx):
     walk.r_walk(ctx, [SW + 'encode'], {SW + 'encode': 2})
     graph2.r_ord_ctor(ctx)
     purity.r_pure(ctx, [BF + 'LocalBioFilter.valid'], floor=1)
+    # necessary conditions of sentence 2 for the built-in filter: the whole-sequence verdict is a conjunction over all windows
+    misc.r_filter(ctx)
 
 
 def c03(ctx):
@@ -83,6 +85,7 @@ def c13(ctx):
     graph.r_kplumb(ctx, None, floor=11)
     graph2.r_arc(ctx, ctx.p.funcs.keys(), floor=8, derived=False)
     live.r_alpha(ctx, ctx.p.funcs.keys(), floor=10)
+    misc2.r_conv(ctx)
 
 
 def c04(ctx):
@@ -118,6 +121,53 @@ def c10(ctx):
     exc.r_typed_index(ctx, SW + 'set_vt')
 
 
+def c07(ctx):
+    misc.r_vtform(ctx)
+    exc.r_typed_index(ctx, SW + 'set_vt')
+    exc.r_typed_dispatch(ctx, [SW + 'set_vt'], floor=1)
+    live.r_alpha(ctx, [SW + 'set_vt', OP + 'number_to_dna'], floor=2)
+    misc2.r_conv(ctx)
+    walk.r_vtuse(ctx)
+
+
+def c12(ctx):
+    misc.r_filter(ctx)
+    purity.r_pure(ctx, [BF + 'LocalBioFilter.valid'], floor=1)
+
+
+def c14(ctx):
+    conv = [GR + n for n in ('accessor_to_adjacency_matrix', 'adjacency_matrix_to_accessor', 'accessor_to_latter_map',
+                             'latter_map_to_accessor', 'obtain_vertices', 'obtain_leaf_vertices')]
+    live.r_live(ctx, conv, floor=5)
+    graph2.r_arc(ctx, [GR + 'adjacency_matrix_to_accessor', GR + 'latter_map_to_accessor'], floor=2)
+    graph.r_kplumb(ctx, [GR + 'adjacency_matrix_to_accessor'], floor=1)
+    graph.r_shift(ctx, ('obtain_latters',))
+    graph2.r_legal(ctx)
+    graph2.r_bfs(ctx)
+    misc2.r_repr(ctx)
+    exc.r_exc(ctx, GR + 'adjacency_matrix_to_accessor', {'ValueError'}, floor=1)
+
+
+def c16(ctx):
+    misc2.r_conv(ctx)
+    live.r_alpha(ctx, [OP + 'dna_to_number', OP + 'number_to_dna'], floor=2)
+    exc.r_typed_dispatch(ctx, ctx.p.funcs.keys(), floor=5)
+
+
+def c18(ctx):
+    misc2.r_shuf(ctx)
+    purity.r_pure(ctx, [SW + 'create_random_shuffles'], floor=1)
+    walk.r_sel(ctx)
+
+
+def c19(ctx):
+    misc2.r_pair(ctx)
+    graph.r_shift(ctx, ('obtain_latters',), with_latter=True)
+    graph.r_kplumb(ctx, [SW + 'remove_nasty_arc'], floor=3)
+    live.r_live(ctx, [GR + 'obtain_vertices'], floor=1)
+    purity.r_pure(ctx, [GR + 'calculate_intersection_score', GR + 'obtain_leaf_vertices'], floor=2)
+
+
 def c20(ctx):
     purity.r_pure(ctx, None, floor=100)
     purity.r_state(ctx)
@@ -127,6 +177,12 @@ def c20(ctx):
 
 
 PROPERTIES = {
+    'C07': c07,
+    'C12': c12,
+    'C14': c14,
+    'C16': c16,
+    'C18': c18,
+    'C19': c19,
     'C20': c20,
     'C04': c04,
     'C08': c08,
